@@ -36,13 +36,15 @@ LABELS = ['dir-pkl', 'dir-json', 'dir-fast', 'dir-z', 'dir-mmap', 'dir-src', 'sq
 
 READ_OPS = [(4, 'get'), (2, 'getd'), (3, 'contains'), (2, 'len'), (3, 'keys'), (1, 'iter'), (4, 'items'), (3, 'load'),
             (1, 'values')]
-WRITE_KINDS = ('set', 'setdefault', 'update', 'dump', 'del', 'pop', 'discard')
-REMOVE_KINDS = ('del', 'pop', 'discard')
+WRITE_KINDS = ('set', 'setdefault', 'update', 'dump', 'del', 'pop', 'discard', 'clear')
+REMOVE_KINDS = ('del', 'pop', 'discard', 'clear')
 
 
-def op_writes(op):
+def op_writes(op, allkeys=()):
     """(key, value or _ABSENT) pairs an operation writes"""
     k = op['op']
+    if k == 'clear':
+        return [(x, _ABSENT) for x in allkeys]
     if k in ('set', 'setdefault'):
         return [(op['k'], op['v'])]
     if k in ('update', 'dump'):
@@ -80,7 +82,8 @@ def generate(rng, prop, tier):
         roles = rng.choice([['writer', 'writer'], ['writer', 'reader'], ['overwriter', 'reader'],
                             ['deleter', 'reader'], ['writer', 'opener'], ['writer', 'writer', 'reader'],
                             ['writer', 'overwriter', 'reader'], ['writer', 'reader', 'reader'],
-                            ['discarder', 'writer'], ['discarder', 'writer', 'reader']])
+                            ['discarder', 'writer'], ['discarder', 'writer', 'reader'],
+                            ['clearer', 'reader'], ['clearer', 'reader', 'reader']])
     clients = []
     fresh = iter(keys[len(pre):])
     owned = {}
@@ -122,6 +125,11 @@ def generate(rng, prop, tier):
             else:
                 k = avail.pop()
             ops.append({'op': rng.choice(['del', 'pop']), 'k': k})
+        elif role == 'clearer':
+            # empties the archive while others read: readers may see entries go, never fail or see garbage
+            if rng.chance(0.4):
+                ops.append({'op': 'set', 'k': next(fresh), 'v': 'c%d-first' % ci})
+            ops.append({'op': 'clear'})
         elif role == 'discarder':
             # the "remove it if it is there" idiom on a key nobody stores, followed by reads on the same handle
             ops.append({'op': 'discard', 'k': next(fresh)})
@@ -201,6 +209,9 @@ def do_op(state, cfg, root, op):
         return None
     if k == 'del':
         del a[op['k']]
+        return None
+    if k == 'clear':
+        a.clear()
         return None
     if k == 'discard':
         try:
@@ -356,7 +367,7 @@ def run_schedule(case, root, rng, max_steps=6000):
                     stalled = None
                 unblocked = [x for x in runnable if last_kind[x] != 'sql-blocked'] or runnable
                 stay = case.get('sticky', 0.5)
-                if cur in unblocked and last_kind[cur] in ('unlink', 'rmdir', 'rename', 'sql-dml'):
+                if cur in unblocked and last_kind[cur] in ('unlink', 'rmdir', 'rename', 'sql-dml', 'sql-script'):
                     stay = 0.25      # in-flight state exists right after these: prefer a context switch
                 if cur in unblocked and rng.chance(stay):
                     c = cur
@@ -420,28 +431,36 @@ def _analyse(case, history, final):
             return 'client-died', 'client %d died: %r' % (c, b)
     INF = 1 << 60
     writes = {}     # key -> list of (start, end, value or ABSENT, acknowledged)
+    allkeys = set(init)
+    for o in ops.values():
+        allkeys.update(wk for (wk, _) in op_writes(o['op']))
+    allkeys = sorted(allkeys)
     for key, o in sorted(ops.items()):
         op = o['op']
         if op['op'] in WRITE_KINDS:
             ack = o['res'] is not None and o['res'][0] == 'ok'
-            for (wk, val) in op_writes(op):
+            for (wk, val) in op_writes(op, allkeys):
                 writes.setdefault(wk, []).append((o['start'], o['end'] or INF, val, ack, key))
 
     def allowed(k, rs, re):
         """values a read of key k spanning [rs, re] may return"""
         ws = sorted(writes.get(k, []))
         vals = []
-        base = init.get(k, _ABSENT)
+        base = [init.get(k, _ABSENT)]
+        last_end = -1
         for (s, e, v, ack, _) in ws:
             if e < rs:
-                if ack:
-                    base = v
+                if ack and s > last_end:
+                    base = [v]          # completed after everything before it: it decides
                     vals = []
+                elif ack:
+                    base.append(v)      # overlapped an earlier write of this key: either may have won
                 else:
                     vals.append(v)      # failed write: effect may or may not be there
+                last_end = max(last_end, e)
             elif s < re:
                 vals.append(v)
-        return [base] + vals
+        return base + vals
 
     def stable(k, rs, re):
         """key present before, during and after the read with no write touching it"""
@@ -788,6 +807,8 @@ def signature(case, viol, prop):
     """root-cause level: backend family, violation class, and which kind of
     conflicting writer the minimised scenario still needs"""
     roles = set(c['role'] for c in case['clients'])
+    if 'clearer' in roles:
+        roles = (roles - {'clearer'}) | {'deleter'}      # clear() is a series of deletes
     conflict = sorted(roles & {'overwriter', 'deleter'}) or sorted(roles & {'writer'}) or ['none']
     if 'opener' in roles or fam(case['backend']['label']) == 'file':
         conflict.append('opener')      # on a single-file archive every client's own open() rewrites the file
@@ -798,11 +819,12 @@ def evidence_info(prop):
     return {
         'rule': 'each run = one scenario (dir archive in every encoding, sqlite file table, or single file; 0-5 prior '
                 'entries; 2-3 clients with roles writer (set / update / cache.dump / setdefault of own new keys) / overwriter / '
-                'deleter / discarder (deletes an absent key, then reads) / reader (get, get-with-default, in, len, keys, '
+                'deleter / discarder (deletes an absent key, then reads) / clearer (clear() of the whole archive, paired with '
+                'readers only: entries may go, a reader still never fails or sees a value never stored) / reader (get, get-with-default, in, len, keys, '
                 'iter, items, values, cache.load) / opener, 1-3 operations each, every written value unique; clients that '
                 'have finished stay alive and idle until the run ends) executed under ONE seeded schedule: the scheduler picks which client performs its '
                 'next intercepted file-system/SQL call (sticky bursts, context switches biased to right after '
-                'unlink/rmdir/rename/DML). Invoke/return events are stamped with the scheduler\'s global sequence number; '
+                'unlink/rmdir/rename/DML/each statement of an SQL script). Invoke/return events are stamped with the scheduler\'s global sequence number; '
                 'the history is checked: no reader/writer operation fails, every value read was stored for that key by '
                 'an operation overlapping or preceding the read, no never-stored key is reported, keys stored throughout '
                 'are not missed, len() is in the possible range, a single-file reader sees one complete dictionary that '
@@ -820,6 +842,8 @@ def evidence_info(prop):
             'interleaving granularity is the intercepted Python-level call: calls are atomic, and C-level sequences '
             'inside one call (sqlite journal writes, importlib reading a module) are not split',
             'single-file archive: roles limited to one writer plus readers/openers, as the property states',
+            'two acknowledged writes of the same key that overlap in time (clear() versus a store) may finish in either '
+            'order: both outcomes are accepted',
             'a sqlite operation that ends with "database is locked" after 5 simulated seconds is a legal, '
             'unacknowledged outcome',
         ],
